@@ -61,6 +61,7 @@ type FuncContract struct {
 	File        string
 	Line        int
 	Vars        map[string]string // spec-local names: alias -> expression text
+	EntryLets   [][2]string         // name, expression: evaluated once in the entry state
 	FrameProps  []string            // properties owning the frame obligations
 	FnParams    map[string][]string // function-typed parameter -> heaps it may write
 }
@@ -94,6 +95,7 @@ type ReplacerSpec struct {
 }
 
 type Contracts struct {
+	TypeInvs   map[string][]*Clause
 	Replacers  []*ReplacerSpec
 	GlobalInvs []*Clause
 	Funcs  map[string]*FuncContract
@@ -107,7 +109,7 @@ var tagRe = regexp.MustCompile(`^\[([A-Z0-9, ]+)\]\s*`)
 func loadContracts(dir string) (*Contracts, error) {
 	files, _ := filepath.Glob(filepath.Join(dir, "verif_contracts*.go"))
 	sort.Strings(files)
-	cs := &Contracts{Funcs: map[string]*FuncContract{}, Ghosts: map[string]*GhostDecl{}}
+	cs := &Contracts{Funcs: map[string]*FuncContract{}, Ghosts: map[string]*GhostDecl{}, TypeInvs: map[string][]*Clause{}}
 	for _, fn := range files {
 		data, err := os.ReadFile(fn)
 		if err != nil {
@@ -157,6 +159,15 @@ func loadContracts(dir string) (*Contracts, error) {
 				rp.Quote = strings.TrimSpace(strings.TrimPrefix(strings.TrimSpace(r), "quote"))
 				cs.Replacers = append(cs.Replacers, rp)
 				cur = nil
+			case "typeinv":
+				// typeinv T : expr over self
+				tn, r := splitWord(rest)
+				r = strings.TrimSpace(strings.TrimPrefix(strings.TrimSpace(r), ":"))
+				c := &Clause{Kind: "typeinv", Text: r, File: filepath.Base(fn), Line: i + 1}
+				cs.TypeInvs[tn] = append(cs.TypeInvs[tn], c)
+				last = c
+				cur = nil
+				continue
 			case "globalinv":
 				c := &Clause{Kind: "globalinv", Text: strings.TrimSpace(rest), File: filepath.Base(fn), Line: i + 1}
 				ex, err := parseSpec(c.Text)
@@ -220,6 +231,10 @@ func loadContracts(dir string) (*Contracts, error) {
 							cur.Modifies = append(cur.Modifies, m)
 						}
 					}
+				case "entrylet":
+					n, r := splitWord(rest)
+					r = strings.TrimSpace(strings.TrimPrefix(strings.TrimSpace(r), "="))
+					cur.EntryLets = append(cur.EntryLets, [2]string{n, r})
 				case "let":
 					n, r := splitWord(rest)
 					r = strings.TrimSpace(strings.TrimPrefix(strings.TrimSpace(r), "="))
@@ -279,6 +294,15 @@ func loadContracts(dir string) (*Contracts, error) {
 		}
 		if len(fc.SafetyProps) == 0 {
 			fc.SafetyProps = nil
+		}
+	}
+	for _, l := range cs.TypeInvs {
+		for _, c := range l {
+			ex, err := parseSpec(c.Text)
+			if err != nil {
+				return nil, fmt.Errorf("%s:%d: %v in %q", c.File, c.Line, err, c.Text)
+			}
+			c.Expr = ex
 		}
 	}
 	for _, lm := range cs.Lemmas {
